@@ -5,7 +5,7 @@
    top-level values of the extracted file share a name (definitions in different Coq
    files must have distinct names). *)
 From Coq Require Import Extraction ExtrOcamlBasic NArith ZArith QArith Qreduction List.
-From JLS Require Import Generated CrcDefs Spec StatsQ MrbModel TmapModel BitCopyModel FsrPackModel Format Decode WriteOnce DefsModel PyramidModel SigDef SpecFast TsModel TwrModel WmRaw WmCore WmTs WmFsr WriterModel SummQ RepairRaw RepairModel ReaderModel.
+From JLS Require Import Generated CrcDefs Spec StatsQ MrbModel TmapModel BitCopyModel FsrPackModel Format Decode WriteOnce DefsModel PyramidModel SigDef SpecFast TsModel TwrModel WmRaw WmCore WmTs WmFsr WriterModel SummQ RepairRaw RepairModel ReaderModel TwrMsg.
 Extraction Language OCaml.
 Extraction "jlsmodel_ext"
   BinInt.Z.add BinInt.Z.opp BinInt.Z.of_N BinInt.Z.to_N BinNat.N.add BinNat.N.mul BinNat.N.of_nat BinNat.N.to_nat
@@ -49,4 +49,5 @@ Extraction "jlsmodel_ext"
   RepairModel.rp_open RepairModel.rp_scan RepairModel.rp_apply_log RepairModel.rp_ends_with_end RepairModel.rp_links_forward
   RepairRaw.rp_signal_validate
   ReaderModel.rdm_open ReaderModel.rdm_fsr_length ReaderModel.rdm_fsr ReaderModel.rdm_annotations
-  ReaderModel.rdm_user_data ReaderModel.rdm_utc ReaderModel.rdm_set_tr ReaderModel.rdm_flt ReaderModel.rdm_def ReaderModel.rdm_sig.
+  ReaderModel.rdm_user_data ReaderModel.rdm_utc ReaderModel.rdm_set_tr ReaderModel.rdm_flt ReaderModel.rdm_def ReaderModel.rdm_sig
+  TwrMsg.tm_encode TwrMsg.tm_decode TwrMsg.tm_norm.
